@@ -64,7 +64,13 @@ def gen_model(r, with_delay, with_rules):
     if with_rules:
         m["species"].append("Tot")
         m["init"]["Tot"] = 0
-        m["rules"].append({"type": "additive", "target": "Tot", "expr": [s for s in species], "freq": "repeated"})
+        # every firing frequency: all of them fire at the initial instant, so the first row must show every rule applied
+        m["rules"].append({"type": "additive", "target": "Tot", "expr": [s for s in species],
+                           "freq": r.choice(["repeated", "repeated", "dt", "start"])})
+        if r.random() < 0.5:
+            m["species"].append("Z")
+            m["init"]["Z"] = 0
+            m["rules"].append({"type": "assignment", "target": "Z", "expr": ["num", 11.0], "freq": r.choice(["dt", "start", "repeated"])})
         if r.random() < 0.6:
             m["species"].append("Y")
             m["init"]["Y"] = 1
@@ -304,7 +310,7 @@ def shrink(case):
         if len(m["reactions"]) > 1:
             yield dict(base, model=dict(m, reactions=m["reactions"][:i] + m["reactions"][i + 1:]))
     if m["rules"]:
-        keep = [s for s in m["species"] if s not in ("Tot", "Y")]
+        keep = [s for s in m["species"] if s not in ("Tot", "Y", "Z")]
         yield dict(base, model=dict(m, rules=[], species=keep, init={s: m["init"][s] for s in keep},
                                     params={k: v for k, v in m["params"].items() if k != "pY"}))
     for i, rx in enumerate(m["reactions"]):
